@@ -13,10 +13,12 @@ import (
 	"errors"
 	"fmt"
 	"io"
+	"sort"
 	"strings"
 	"sync"
 
 	"cuelabs.dev/go/oci/ociregistry"
+	ocispec "github.com/opencontainers/image-spec/specs-go/v1"
 )
 
 // Op is one call on an ociregistry.Interface (or on a BlobWriter obtained from it).
@@ -32,6 +34,9 @@ type Op struct {
 	MediaType  string `json:"media_type,omitempty"`
 	Size       int64  `json:"size,omitempty"` // PushBlob: declared size
 	StartAfter string `json:"start_after,omitempty"`
+	// PushBlob: the descriptor handed in also carries annotations, URLs, embedded data, an artifact type
+	// and a platform (none of which is part of what a blob is); the caller changes them after the call
+	DescExtra bool `json:"desc_extra,omitempty"`
 	// Referrers: restrict the listing to manifests of this artifact type ("" = all)
 	ArtifactType string `json:"artifact_type,omitempty"`
 	Hint         int    `json:"hint,omitempty"`
@@ -85,6 +90,9 @@ func (o *Op) String() string {
 	if o.ArtifactType != "" {
 		f("artifact_type", o.ArtifactType)
 	}
+	if o.DescExtra {
+		f("desc_extra", true)
+	}
 	if strings.HasPrefix(o.Kind, "W.") || o.Kind == "PushBlobChunkedResume" {
 		f("h", o.H)
 	}
@@ -134,6 +142,7 @@ type Outcome struct {
 	WSize     int64    `json:"wsize,omitempty"`  // writer Size() after the op
 	N         int      `json:"n,omitempty"`
 	RangeIs   bool     `json:"range_invalid,omitempty"` // errors.Is(err, ErrRangeInvalid)
+	Extra     string   `json:"descriptor_extra,omitempty"` // descriptor fields beyond media type, digest and size, rendered
 	error     error
 }
 
@@ -246,7 +255,30 @@ func NewEnv(reg ociregistry.Interface) *Env {
 }
 
 func descOutcome(d ociregistry.Descriptor) *Outcome {
-	return &Outcome{OK: true, Digest: string(d.Digest), Size: d.Size, MediaType: d.MediaType}
+	o := &Outcome{OK: true, Digest: string(d.Digest), Size: d.Size, MediaType: d.MediaType}
+	var extra []string
+	if len(d.Annotations) > 0 {
+		var ks []string
+		for k, v := range d.Annotations {
+			ks = append(ks, k+"="+v)
+		}
+		sort.Strings(ks)
+		extra = append(extra, "annotations{"+strings.Join(ks, ",")+"}")
+	}
+	if len(d.URLs) > 0 {
+		extra = append(extra, "urls{"+strings.Join(d.URLs, ",")+"}")
+	}
+	if d.Data != nil {
+		extra = append(extra, fmt.Sprintf("data{%d bytes}", len(d.Data)))
+	}
+	if d.ArtifactType != "" {
+		extra = append(extra, "artifactType{"+d.ArtifactType+"}")
+	}
+	if d.Platform != nil {
+		extra = append(extra, "platform{"+d.Platform.OS+"/"+d.Platform.Architecture+"}")
+	}
+	o.Extra = strings.Join(extra, " ")
+	return o
 }
 
 func readOutcome(r ociregistry.BlobReader, err error) *Outcome {
@@ -389,8 +421,25 @@ func (e *Env) Exec(op *Op) *Outcome {
 		return descOutcome(d)
 	case "PushBlob":
 		buf := append([]byte(nil), op.Data...)
-		d, err := r.PushBlob(ctx, op.Repo, ociregistry.Descriptor{MediaType: op.MediaType, Digest: dig, Size: op.Size}, bytes.NewReader(buf))
+		pd := ociregistry.Descriptor{MediaType: op.MediaType, Digest: dig, Size: op.Size}
+		if op.DescExtra {
+			pd.Annotations = map[string]string{"org.example.note": "as pushed"}
+			pd.URLs = []string{"https://elsewhere.example/blob"}
+			pd.Data = append([]byte(nil), op.Data...)
+			pd.ArtifactType = "application/vnd.example.thing"
+			pd.Platform = &ocispec.Platform{OS: "plan9", Architecture: "riscv64"}
+		}
+		d, err := r.PushBlob(ctx, op.Repo, pd, bytes.NewReader(buf))
 		e.scribble(buf)
+		if op.DescExtra {
+			// the descriptor value is the caller's
+			pd.Annotations["org.example.note"] = "changed by the caller afterwards"
+			pd.URLs[0] = "https://changed.example/"
+			for i := range pd.Data {
+				pd.Data[i] ^= 0x5a
+			}
+			pd.Platform.OS = "changed"
+		}
 		if err != nil {
 			return fail(err)
 		}
